@@ -12,6 +12,7 @@ type Environment struct {
 	store     map[string]Object
 	Aliases   map[string]string
 	toCompact []Object
+	removed   map[string]bool
 }
 
 // NewEnvironment creates a new enviroment
@@ -115,6 +116,7 @@ func (e *Environment) Set(name string, val Object) Object {
 	}
 
 	e.store[n] = val
+	delete(e.removed, n)
 
 	return val
 }
@@ -130,6 +132,12 @@ func (e *Environment) Remove(name string) {
 	_, ok := e.store[n]
 	if ok {
 		delete(e.store, n)
+
+		if e.removed == nil {
+			e.removed = map[string]bool{}
+		}
+
+		e.removed[n] = true
 
 		return
 	}
@@ -165,6 +173,11 @@ func (e *Environment) Apply(item map[string]*types.Item, aliases map[string]stri
 
 		vItem := v.ToDynamoDB()
 		item[k] = &vItem
+	}
+
+	// attributes removed from the environment must also disappear from the item
+	for k := range e.removed {
+		delete(item, k)
 	}
 }
 
